@@ -244,6 +244,28 @@ Proof.
   exists s. repeat split; vm_compute; reflexivity.
 Qed.
 
+(* the dup window is needed too: StartProcess creates and launches instance 1 of a process with a readiness probe; Run()'s
+   spawn loop then creates instance 2 of the same name (F25) and writes Pending; a fatal probe result makes the internal
+   stop find "Pending" on the launched instance 1 and record a stop request without isStopped; the command exits and the
+   restart decision is positive.  Only w_dup is raised (not commit, sdlag, zombie). *)
+Definition ex_cfg_probe : amap pconf := [(1%N, mkConf [] PAlways 0 0 false false true false false false false)].
+Definition ex_dup : list (tid * event) :=
+  [(30, EApiBegin (OpStart 1)); (30, ERegGet 1 None); (30, EStartChecked 1 false); (30, ENewInst 1 1); (30, EState 1 SPending);
+   (30, ERegAdd 1 1); (30, ESpawn 1 1); (30, EApiReturn true);
+   (20, EBegin 1); (20, ERunChecked false); (20, EStarted); (20, EState 1 SRunning); (20, ELaunch true);
+   (10, EApiBegin OpRun); (10, ENewInst 2 1); (10, EState 2 SPending);
+   (40, EProbe 1 false true); (40, EStopEnter 1 false); (40, EStopPending 1);
+   (0, ECmdExit 1 0%Z); (20, EWaitReturn 0%Z); (20, EExitCode 0%Z); (20, ERestartDecision true)]%N.
+
+Lemma C02_dup_needed : exists cs ord evs s,
+  accept (init cs ord) evs = Some s /\ holds_C02 cs evs = false /\
+  w_commit (final_obs cs evs) = false /\ w_sdlag (final_obs cs evs) = false /\ w_zombie (final_obs cs evs) = false.
+Proof.
+  exists ex_cfg_probe, false, ex_dup.
+  destruct (accept (init ex_cfg_probe false) ex_dup) as [s|] eqn:E; [|vm_compute in E; discriminate].
+  exists s. repeat split; vm_compute; reflexivity.
+Qed.
+
 Lemma C02_nonvacuous :
   (exists s, accept (init (ex_cfg POnFailure 1) false) ex_good = Some s) /\
   W_C02 (final_obs (ex_cfg POnFailure 1) ex_good) = false /\ length ex_good = 28 /\
